@@ -46,14 +46,16 @@ def finish(ctx):
 
 SYS_DOCS = {
     "gfa1": ["H\tVN:Z:1.0\txx:i:1", "S\tA\t*\txx:i:1", "S\tB\tACGT", "L\tA\t+\tB\t-\t2M\tID:Z:l1",
-             "C\tA\t+\tB\t-\t1\t2M", "P\tp\tA+,B-\t2M"],
+             "C\tA\t+\tB\t-\t1\t2M\tID:Z:c1", "P\tp\tA+,B-\t2M"],
     "gfa2": ["H\tVN:Z:2.0", "S\tA\t10\t*\txx:i:1", "S\tB\t10\t*", "E\te1\tA+\tB-\t5\t10$\t5\t10$\t2M",
              "F\tA\tr+\t0\t5\t0\t5\t*", "G\tg1\tA+\tB-\t5\t*", "O\to1\tA+ e1+ B-", "U\tu1\tA B e1",
              "X\tabc\tdef\txx:i:1"],
 }
 SYS_ATOMS = ["", "*", "+", "-", "0", "-1", "1$", "$", "A", "b", "zz", "A+", "B-", "Ax", "A+,B-", "A+ B-", "A+,zz-", "1M",
              "1,2", "xx:i:1", "xx:J:{", " ", "\x00", "\u00e9", "1e5", "x" * 300, "e1", "e1+", "u1", "p", "o1-", "3X",
-             "10", "11$", "A B zz", "A+ zz+", "xx:J:" + "[" * 6000 + "]" * 6000]
+             "10", "11$", "A B zz", "A+ zz+", "xx:J:" + "[" * 6000 + "]" * 6000,
+             # the tag which names a GFA1 edge, with values which are no identifiers
+             "ID:J:[1]", "ID:B:i,1", "ID:i:5", "ID:J:{\"a\":1}", "ID:Z:A", "ID:f:1.5", "ID:H:1A"]
 
 
 def sys_cases():
